@@ -45,11 +45,10 @@ ProbeVerdict(r) ==
   ELSE IF ~C34_All(g, r.deg, r.pts, r.vals) THEN "C34:" \o C34_Failing(g, r.deg, r.pts, r.vals)
   ELSE IF \E k \in 1..Len(r.tgts) : ~C34_Reinterp(g, r.deg, r.tgts[k].tgt, r.tgts[k].R)
        THEN "C34:reinterp"
-  ELSE IF \E j \in 1..n : r.areas[j] # Areas(g, r.deg, j - 1) THEN "CONF:areas-differ-from-spec"
-  ELSE IF \E j \in 1..n : \E e \in 1..Len(r.pts) : r.vals[j][e] # EvalX(r.areas[j], r.pts[e])
-       THEN "CONF:values-differ-from-own-coefficients"
-  ELSE IF r.vals # EvalTable(g, r.deg, r.pts) THEN "CONF:values-differ-from-spec"
-  ELSE IF \E k \in 1..Len(r.tgts) : r.tgts[k].R # GetInterpolation(g, r.deg, r.tgts[k].tgt)
+  ELSE LET A == AllAreas(g, r.deg) IN
+  IF r.areas # A THEN "CONF:areas-differ-from-spec"
+  ELSE IF r.vals # EvalTableA(r.areas, r.pts) THEN "CONF:values-differ-from-own-coefficients"
+  ELSE IF \E k \in 1..Len(r.tgts) : r.tgts[k].R # GetInterpolationA(A, g, r.tgts[k].tgt)
        THEN "CONF:reinterp-differs-from-spec"
   ELSE "ok"
 
